@@ -369,7 +369,7 @@ class LdMcSpecialUnitary(Gate):
 
             self._apply_ctrl_state()
         else:
-            self.unitary(self.unitary, self.target_qubit)
+            self.definition.unitary(self.unitary, self.target_qubit)
 
     def _apply_abc(self, a_gate: UnitaryGate, b_gate: UnitaryGate, c_gate: UnitaryGate):
         """
